@@ -245,8 +245,10 @@ Section Prov.
   Variable pv_string : string -> pv.       (* the command name, a str *)
   (** one row of the provenance table *)
   Variable record : Type.
-  (** [json.dumps(get_provenance_dict(...))] of the final parameter dict (which includes
-      "command"); [None] = TypeError, some value is not JSON serialisable *)
+  (** [json.dumps(get_provenance_dict(...), default=_json_default)] of the final parameter dict
+      (which includes "command").  Since the repair of K4 (provenance.py, [_json_default])
+      numpy arrays and numpy scalars are written as lists / python numbers; [None] = TypeError
+      for a value that is not JSON serialisable even so *)
   Variable dump : list (string * pv) -> option record.
 
   Definition pdict := list (string * pv).
@@ -337,8 +339,9 @@ End Prov.
 Arguments mkGeneric {pv}.
 Arguments mkPrep {pv}.
 
-(** harness instance: values are interned JSON texts (0 = not JSON serialisable), a record is
-    its parameter dict *)
+(** harness instance: values are interned canonical JSON texts of what is written (a numpy array
+    as the list it stands for, a numpy scalar as the python number); 0 = not JSON serialisable
+    even after that conversion; a record is its parameter dict *)
 Definition zdump (d : list (string * Z)) : option (list (string * Z)) :=
   if existsb (fun kv => Z.eqb (snd kv) 0) d then None else Some d.
 Definition zstr (s : string) : Z :=
